@@ -98,6 +98,15 @@ Theorem C03_table_checked : table_ok gen_methods = true.
 Proof. exact table_checked. Qed.
 Print Assumptions C03_table_checked.
 
+(* C03_cells_checked: the attributes assigned through `self` in _PolyHelper, _PolyHelper2D, SplineBasis,
+   SplineBasis2D, _Algorithm, _Algorithm2D (and the memoising decorators of their modules), as extracted from the
+   CURRENT source, are exactly the list each of whose entries is accounted for by a cell of the models
+   (Instantiate.expected_cells).  A new persistent attribute -- a new place where one call can leave something
+   for the next -- breaks this theorem. *)
+Theorem C03_cells_checked : cells_ok gen_cells = true.
+Proof. exact cells_checked. Qed.
+Print Assumptions C03_cells_checked.
+
 (* soundness of the check, for ANY table: every method found in a checked table is modelled, i.e.
    instantiates (for all argument values) to an operation of the 1-D resp. 2-D machine *)
 Theorem C03_table_sound : forall t : list minfo, table_ok t = true ->
